@@ -22,6 +22,9 @@ class AnalysisError(Exception):
 # PY: module facts
 # ------------------------------------------------------------------------------------------
 
+_MOD_CACHE = {}
+
+
 class Mod:
     def __init__(self, repo, rel, text=None):
         self.repo = repo
@@ -34,14 +37,42 @@ class Mod:
                 raise AnalysisError(f"anchor file vanished: {rel}")
             with open(self.path, encoding="utf-8") as f:
                 self.src = f.read()
+        self.renames = []
+        self.inlined = []
+        ckey = (rel, hashlib.sha1(self.src.encode()).hexdigest(), os.environ.get("LXS_NO_CMPCANON"), os.environ.get("LXS_NO_RENAME"),
+                os.environ.get("LXS_NO_INLINE"))
+        hit = _MOD_CACHE.get(ckey)
+        if hit is not None:
+            import pickle
+            self.tree, self.renames, self.inlined = pickle.loads(hit)
+        else:
+            self._parse_canonical(rel)
+            import pickle
+            if len(_MOD_CACHE) < 400:
+                _MOD_CACHE[ckey] = pickle.dumps((self.tree, self.renames, self.inlined))
+        self.classes = {}
+        self.functions = {}
+        self.assigns = {}        # module-level NAME -> value node (last binding)
+        for node in self.tree.body:
+            if isinstance(node, ast.ClassDef):
+                self.classes[node.name] = node
+            elif isinstance(node, (ast.FunctionDef,)):
+                self.functions[node.name] = node
+            elif isinstance(node, ast.Assign):
+                for t in node.targets:
+                    if isinstance(t, ast.Name):
+                        self.assigns[t.id] = node.value
+        self.digest = hashlib.sha1(self.src.encode()).hexdigest()[:12]
+
+    def _parse_canonical(self, rel):
         try:
             self.tree = ast.parse(self.src, filename=rel)
         except SyntaxError as e:
             raise AnalysisError(f"cannot parse {rel}: {e}")
         # comparisons are read in one orientation: `a > b` as `b < a`, `a >= b` as `b <= a` (rules never depend on which way a
         # maintainer wrote an inequality)
+        from . import names as _nm
         if not os.environ.get("LXS_NO_CMPCANON"):
-            from . import names as _nm
             _nm.canon_compare(self.tree)
             _nm.canon_consts(self.tree)
         # renamed locals are alpha-renamed back to the names the rules know (lxs/names.py); resolution only, never a verdict
@@ -57,19 +88,6 @@ class Mod:
         # `==` / `!=` are read in the orientation the pinned tree uses (or constant on the right)
         if not os.environ.get("LXS_NO_CMPCANON"):
             _nm.canon_eq(self.tree, rel)
-        self.classes = {}
-        self.functions = {}
-        self.assigns = {}        # module-level NAME -> value node (last binding)
-        for node in self.tree.body:
-            if isinstance(node, ast.ClassDef):
-                self.classes[node.name] = node
-            elif isinstance(node, (ast.FunctionDef,)):
-                self.functions[node.name] = node
-            elif isinstance(node, ast.Assign):
-                for t in node.targets:
-                    if isinstance(t, ast.Name):
-                        self.assigns[t.id] = node.value
-        self.digest = hashlib.sha1(self.src.encode()).hexdigest()[:12]
 
     def cls(self, name):
         if name not in self.classes:
